@@ -32,3 +32,10 @@ def evalSlHist (args : List String) : String :=
       go f rest (acc ++ [r])
   " ; ".intercalate (go args.length args [])
 end Bmc.Driver
+
+namespace Bmc.Driver
+def evalSlSendB (args : List String) : String :=
+  match args.getLast? with
+  | some script => if script == "-" then "bad-op" else evalSlSend (args.dropLast ++ [deliveredScript script])
+  | none => "bad-op"
+end Bmc.Driver
